@@ -4,7 +4,7 @@
    history on which the source before the repair violated the property. *)
 From Coq Require Import String List NArith Lia.
 From Ax Require Import Lib.Bytes Lib.Mvx Lib.Keccak Model.Check Model.Env Model.Gateway Model.Governance
-     Proofs.GatewayMsgs Proofs.GovFacts Proofs.GovWorld Proofs.GovGwOrigin Proofs.GovCount Gen.Generated.
+     Proofs.GatewayMsgs Proofs.GovFacts Proofs.GovWorld Proofs.GovGwOrigin Proofs.GovCount Proofs.GovExcl Gen.Generated.
 Import ListNotations.
 Open Scope N_scope.
 
@@ -111,6 +111,25 @@ Section C11.
       Forall (fun go => In (VGateway go) ops \/ gis_val go) pre /\
       approve_messages H verify (grun H verify (w_gw w0) pre) raw p <> None.
   Proof. exact (command_traces_to_batch H verify). Qed.
+  (* a time lock is never scheduled and in flight at once (Proofs/GovExcl.v): invariant over all nine operation kinds, hence in every world
+     reachable from a freshly deployed contract; so the eta an error callback gives back to a failed dispatch never lands on an eta that a
+     governance command has set in the meantime -- when a callback changes the eta of h, that eta was zero, the dispatch of h still marked in
+     flight, and the call had failed; and nothing but a command, the consuming dispatch and that callback ever changes an eta *)
+  Theorem c11_never_scheduled_and_in_flight : forall w o, Excl w -> Excl (fst (step w o)).
+  Proof. exact (excl_step H verify). Qed.
+  Theorem c11_exclusion_reachable : forall ops w, gv_eta (w_gov w) = [] -> Excl (vrun H verify true w ops).
+  Proof. intros. apply excl_reachable. apply excl_fresh. assumption. Qed.
+  Theorem c11_callback_restores_only_onto_empty : forall w self id h,
+    Excl w ->
+    getN (gv_eta (w_gov (fst (step w (VCallback self id))))) h <> getN (gv_eta (w_gov w)) h ->
+    exists p rets, find_pending id (w_pend w) = Some p /\ gp_stage p = AwaitCallback false rets /\ gp_kind p = PTimeLock /\ gp_hash p = h /\
+                   getN (gv_eta (w_gov w)) h = 0 /\ getN (gv_tl_flight (w_gov w)) h <> 0 /\
+                   getN (gv_eta (w_gov (fst (step w (VCallback self id))))) h = gp_eta p.
+  Proof. exact (callback_restores_only_onto_empty H verify). Qed.
+  Theorem c11_eta_changes_only_by : forall w o h,
+    getN (gv_eta (w_gov (fst (step w o)))) h <> getN (gv_eta (w_gov w)) h ->
+    match o with VExecute _ _ _ _ _ | VExecProposal _ _ _ _ | VCallback _ _ => True | _ => False end.
+  Proof. exact (eta_changes_only_by H verify). Qed.
 End C11.
 
 Print Assumptions c11_dispatch_requires.
@@ -120,6 +139,9 @@ Print Assumptions c11_cancelled_stays_cancelled.
 Print Assumptions c11_dead_no_dispatch.
 Print Assumptions c11_one_success_per_scheduling.
 Print Assumptions c11_accepts_bounded.
+Print Assumptions c11_exclusion_reachable.
+Print Assumptions c11_callback_restores_only_onto_empty.
+Print Assumptions c11_eta_changes_only_by.
 
 (* non-vacuity of the counting theorems: schedule, dispatch, failed call (eta given back), dispatch again,
    successful call: 1 scheduling, 2 accepted dispatches, 1 failure, 1 success *)
@@ -134,6 +156,17 @@ Example c11_counting_nonvacuous :
   total keccak256 Refuted.vf (cb_of false) Refuted.w0 os h = 1 /\
   total keccak256 Refuted.vf (cb_of true) Refuted.w0 os h = 1.
 Proof. vm_compute. repeat split; reflexivity. Qed.
+
+(* non-vacuity of the exclusion theorems: the start world has no time lock; after schedule + dispatch the marker is set and the eta is zero;
+   the failing callback then CHANGES the eta (gives it back) -- the case c11_callback_restores_only_onto_empty speaks about *)
+Example c11_exclusion_nonvacuous :
+  let h := proposal_hash keccak256 Refuted.tgt Refuted.cdata 0 in
+  let w1 := vrun keccak256 Refuted.vf true Refuted.w0
+              [ VExecute (Refuted.cx 100) Refuted.chain (str "m1") Refuted.gaddr (Refuted.payload 0);
+                VExecProposal (Refuted.cx 110) Refuted.tgt Refuted.cdata 0; VDeliver Refuted.self 0 false [] ] in
+  gv_eta (w_gov Refuted.w0) = [] /\ getN (gv_eta (w_gov w1)) h = 0 /\ getN (gv_tl_flight (w_gov w1)) h = 1 /\
+  getN (gv_eta (w_gov (fst (vstep keccak256 Refuted.vf true w1 (VCallback Refuted.self 0))))) h <> 0.
+Proof. vm_compute. repeat split; try reflexivity. discriminate. Qed.
 
 (* the defect that was repaired (fix: commit in the repository): with the old callback the history
    schedule; dispatch; cancel-in-flight; failed call; callback lets the cancelled proposal run again *)
@@ -156,3 +189,6 @@ Example pin_gov_gas : gen_gov_EXECUTE_PROPOSAL_CALLBACK_GAS = CALLBACK_GAS /\ ge
 Check c11_one_success_per_scheduling.
 Check c11_cancelled_stays_cancelled : forall H verify ops w h,
     Dead w h -> Forall (fun o => ~ is_schedule_of H o h) ops -> Dead (vrun H verify true w ops) h.
+
+Check c11_callback_restores_only_onto_empty.
+Check c11_exclusion_reachable : forall H verify ops w, gv_eta (w_gov w) = [] -> Excl (vrun H verify true w ops).
